@@ -39,6 +39,8 @@ SHRINK_WALL_S = 60.0
 SHRINK_WALL_TOTAL_S = 150.0
 AFTER_VIOLATION_CASES = 4000
 SCOUT_ABOVE = 20000
+POST_VIOLATION_TIMEOUT_S = 90
+RETRY_TIMEOUT_S = 120
 SCOUT_CASES = 2000
 
 ENV = dict(os.environ)
@@ -471,17 +473,20 @@ class Ctx:
         impl_cmd, model_cmd = self.cmds(st)
         with ThreadPoolExecutor(max_workers=2) as ex:
             ps = getattr(st, "per_shard", 200)
-            fi = ex.submit(run_lines, impl_cmd, cases, NCPU, st.timeout, "impl", None, ps)
-            fm = ex.submit(run_lines, model_cmd, cases, NCPU, st.timeout, "model", None, ps)
+            # once the verdict is settled (a violation has been reported) nothing waits long for an answer any more
+            tmo = min(st.timeout, POST_VIOLATION_TIMEOUT_S) if self.violations else st.timeout
+            fi = ex.submit(run_lines, impl_cmd, cases, NCPU, tmo, "impl", None, ps)
+            fm = ex.submit(run_lines, model_cmd, cases, NCPU, tmo, "model", None, ps)
             impl, model = fi.result(), fm.result()
         # a shard that ran into the overall time limit (HANG: a loaded machine is enough for that) leaves its remaining cases without
         # an answer: run those again in smaller batches; a case that hangs by itself still hangs when it is run alone
         for side, cmd in ((impl, impl_cmd), (model, model_cmd)):
             for _ in range(2):
-                if "HANG" not in side:
+                if "HANG" not in side or self.violations:
                     break
                 idx = [k for k, r in enumerate(side) if r in ("HANG", "SKIPPED")]
-                again = run_lines(cmd, [cases[k] for k in idx], NCPU, st.timeout, "retry", None, max(1, min(ps, len(idx) // NCPU + 1)))
+                # the batches are small now: what does not answer within the retry limit does not answer
+                again = run_lines(cmd, [cases[k] for k in idx], NCPU, min(tmo, RETRY_TIMEOUT_S), "retry", None, max(1, min(ps, len(idx) // NCPU + 1)))
                 for k, r in zip(idx, again):
                     side[k] = r
         return impl, model
@@ -604,6 +609,8 @@ class Ctx:
         except Exception as e:  # noqa: BLE001  (statistics must never break a check)
             info["input_distribution"] = {"error": str(e)[:200]}
         self.cov.setdefault("streams", []).append(info)
+        if os.environ.get("VP_TRACE"):
+            log("[%s] stream %s: %d cases, %d mismatches, run %.1fs (t=%.0fs)" % (self.pid, st.name, len(cases), len(mism), info["wall_s"], time.time() - self.t0))
         # monitor on the implementation trace of EVERY case (cheap ones are Python predicates)
         bad = []
         for c, i, m in zip(cases, impl, model):
